@@ -42,3 +42,5 @@ impl Formatter {
 #[verifier::external_body] pub fn vx_lit(s: &'static str) -> (r: String) ensures r@ == s@ { s.to_owned() }
 #[verifier::external_body] pub fn vx_cat(a: String, b: String) -> (r: String) ensures r@ == a@ + b@ { unimplemented!() }
 #[verifier::external_body] pub fn vx_disp<T: VDisplay>(t: &T) -> (r: String) ensures r@ == t.display() { unimplemented!() }
+// a String is its characters
+pub broadcast axiom fn string_ext(a: String, b: String) requires #[trigger] a@ == #[trigger] b@ ensures a == b;
